@@ -280,7 +280,7 @@ impl Scripted {
                 let inner = s.inner_eff().max(1);
                 let lp = (k - 1) / inner;
                 let kt = s.spec_kt(lp);
-                let thr = self.thresholds[(k - 1) as usize];
+                let thr = self.thresholds.get((k - 1) as usize).copied().unwrap_or(0.5);
                 let cur = st.believed;
                 let mode = hash2(self.sseed, k) % 8;
                 match mode {
@@ -515,7 +515,7 @@ pub fn run_scripted(spec: &Spec) -> Run {
         handles.push((c, lo, hi));
     }
     let init: Vec<f64> = cells.iter().map(|c| c.get_value()).collect();
-    let draws = replay_draws(settings.seed, handles.len(), settings.steps);
+    let draws = replay_draws(settings.seed, handles.len(), settings.steps + 4 * settings.inner.min(100_000) + 64);
     let thresholds = Arc::new(draws.iter().map(|d| d.2).collect::<Vec<f64>>());
     let log = Arc::new(Mutex::new(vec![]));
     let cells_probe: Vec<SharedValue> = vec![];
@@ -592,7 +592,7 @@ fn run_real_state<S: State>(spec: &Spec, state: S) -> Run {
     let init: Vec<f64> = probed.iter().map(|p| p.0).collect();
     let handles: Vec<(usize, f64, f64)> =
         probed.iter().enumerate().map(|(i, p)| (i, p.1, p.2)).collect();
-    let draws = replay_draws(settings.seed, handles.len(), settings.steps);
+    let draws = replay_draws(settings.seed, handles.len(), settings.steps + 4 * settings.inner.min(100_000) + 64);
     let log = Arc::new(Mutex::new(vec![]));
     let rec = Recorder { inner: state, log: log.clone() };
     let (final_vec, final_json, outcome) = run_state(rec, &settings, log.clone(), |f| f());
@@ -952,6 +952,7 @@ pub fn monitor(run: &Run) -> (Vec<Finding>, Stats) {
         let mut cur = c0.vec.clone();
         let mut sc = s0;
         let (mut acc, mut rej, mut clamped, mut boundary) = (0u64, 0u64, 0u64, 0u64);
+        let mut loop_scores: Vec<f64> = vec![s0];
         for k in 1..=steps_done {
             let call = &run.calls[k as usize];
             let lp = (k - 1) / inner.max(1);
@@ -977,7 +978,7 @@ pub fn monitor(run: &Run) -> (Vec<Finding>, Stats) {
                         });
                     }
                     let bound = s.max_step * (hi - lo) / 2.;
-                    if !((a - b).abs() <= bound * (1. + 1e-9) + 1e-300) {
+                    if !((a - b).abs() <= bound * (1. + 1e-9) + 1e-300 + 4. * f64::EPSILON * a.abs().max(b.abs())) {
                         v.push(Finding {
                             property: "C19",
                             what: format!(
@@ -1068,9 +1069,52 @@ pub fn monitor(run: &Run) -> (Vec<Finding>, Stats) {
             } else {
                 rej += 1;
             }
+            if inner > 0 && k % inner == 0 {
+                loop_scores.push(sc);
+            }
         }
         if s.kt_start == 0. && sc < s0 {
             v.push(Finding { property: "C05", what: format!("final score {:?} below the input score {:?} at kt_start = 0", sc, s0) });
+        }
+        // C20: with a convergence threshold the run stops exactly after the first loop that makes
+        // more than five consecutive loops each improving by less than the threshold
+        if let (Some(eps), true) = (s.conv, inner > 0) {
+            let mut count = 0u64;
+            let mut expected_stop: Option<u64> = None;
+            let loops_run = steps_done / inner;
+            for l in 0..loops_run {
+                let (a, b) = (loop_scores[l as usize], loop_scores[l as usize + 1]);
+                if b - a < eps {
+                    count += 1;
+                    if count > 5 {
+                        expected_stop = Some(l + 1);
+                        break;
+                    }
+                } else {
+                    count = 0;
+                }
+            }
+            let any_ambig = ambig.iter().any(|x| *x);
+            if !any_ambig {
+                match (expected_stop, stats.converged_early) {
+                    (Some(l), _) if l < loops_run => v.push(Finding {
+                        property: "C20",
+                        what: format!("convergence (threshold {:?}) was reached after loop {} but the run went on to loop {}", eps, l, loops_run),
+                    }),
+                    (None, true) => v.push(Finding {
+                        property: "C20",
+                        what: format!(
+                            "the run stopped early after {} of {} loops although it never had more than five consecutive loops improving by less than the threshold {:?}",
+                            loops_run, loops, eps
+                        ),
+                    }),
+                    (Some(l), false) if l == loops_run && loops_run < loops => v.push(Finding {
+                        property: "C20",
+                        what: format!("inconsistent early stop at loop {}", l),
+                    }),
+                    _ => {}
+                }
+            }
         }
         if ci == 0 {
             stats.accepts = acc;
